@@ -268,6 +268,23 @@ def check_rewrite(case):
 
 
 def check_at(path, case):
+    if case["n"] % 2 == 0:
+        # an ItpFile of the same text is opened and edited in memory through its public setters (never written back):
+        # loading the topology from the file afterwards is not affected
+        from gaddlemaps.parsers import ItpFile
+        try:
+            with env.quiet():
+                scratch = ItpFile(path)
+                for line in scratch["moleculetype"]:
+                    line.name = "EDITED"
+                for sec in ("bonds", "constraints", "pairs"):
+                    if sec in scratch:
+                        for line in list(scratch[sec])[:3]:
+                            line.content = ""
+                for line in list(scratch["atoms"])[:2]:
+                    line.comment = "edited in memory"
+        except Exception:      # noqa: BLE001   (the setters themselves are not the subject here)
+            pass
     n = case["n"]
     edges = [tuple(e) for e in case["edges"]]
     exp_atoms = [tuple(a) for a in case["atoms"]]
